@@ -14,12 +14,15 @@ import random
 import subprocess
 import sys
 
-from .. import vp, canon
+from .. import vp, canon, stream
+from . import common
 
 sys.path.insert(0, os.path.join(vp.VERIF, "tools"))
 import gen  # noqa: E402
 
-FACTS = ["file_codegen_src_string_rs", "file_codegen_src_rule_rs", "file_codegen_src_grammar_mod_rs", "file_runtime_src_", "grammar_ebnf"]
+# the behavioural clause (equal grammars spelled differently generate parsers that behave the same) runs through
+# every template: all modelled files
+FACTS = ["file_codegen_src_string_rs", "file_codegen_src_rule_rs", "file_codegen_src_grammar_mod_rs", "file_runtime_src_", "grammar_ebnf"] + common.CODEGEN_FILES
 
 
 def nm(s):
@@ -338,10 +341,38 @@ def check(out, ctx):
         for (label, got) in lst[1:]:
             if got != first:
                 out.violation("c12layout:" + label, "the same grammar under another layout reads differently (%s vs %s)" % (lst[0][0], label), {})
+    # (f) behaviour: a grammar and the same grammar printed with redundant parentheses (around the operand of
+    # every prefix operator, around half of the parts of every sequence) generate parsers that agree on every
+    # input in acceptance, tree, positions and error position
+    st = stream.get(ctx)
+    by = {(c.g.gid, c.rule, c.inp): c for c in st["cases"]}
+    gmap = {g.gid: g for g in st["grammars"]}
+    paren_pairs = 0
+    for (gid, rule, inp), c in by.items():
+        g = gmap[gid]
+        if g.meta.get("twin") != "parens":
+            continue
+        oc = by.get((g.meta["twin_of"], rule, inp))
+        if oc is None:
+            continue
+        paren_pairs += 1
+        a, b = oc.impl, c.impl
+        same = a["k"] == b["k"] and (a["k"] != "OK" or a["tree"] == b["tree"]) and \
+            (a["k"] != "ERR" or (a["pos"], a["spec"]) == (b["pos"], b["spec"]))
+        if not same:
+            out.violation("c12parens:%s:%s:%s" % (oc.g.gid, rule, inp.encode().hex()),
+                          "a grammar and the same grammar with redundant parentheses disagree on %r" % inp,
+                          common.case_payload(oc, st, parenthesised_grammar=c.g.text, parenthesised_result=b))
+    for g in st["grammars"]:
+        if g.meta.get("twin") == "parens":
+            o = gmap[g.meta["twin_of"]]
+            if (o.gen == "CODE") != (g.gen == "CODE") or (o.rustc_error is None) != (g.rustc_error is None):
+                out.violation("c12parens-compile:" + o.gid, "only one of (grammar, grammar with redundant parentheses) is accepted / compiles",
+                              {"grammar": o.text, "parenthesised": g.text, "gen": [o.gen, g.gen], "rustc": [o.rustc_error, g.rustc_error]})
     den = denoted(out, ctx, front, rnd, work)
     dirs = directive_orders(out, ctx, front, rnd, work)
     out.coverage.update({
-        "directive_order_variants_compared": dirs,
+        "directive_order_variants_compared": dirs, "parenthesised_twin_cases_compared": paren_pairs,
         "literals_and_ranges_checked_in_generated_code": den,
         "evaluations": len(texts), "distinct_nontrivial": len(nontrivial),
         "rule": "generated grammars (all operators, directives in random order, @char/@extern rules, both quote styles, every escape form chosen at random per character) each printed plainly and under 2 random layouts (spaces/newlines/tabs/comments between tokens, redundant parentheses), plus the repository's own grammar files; non-trivial = a fancy-layout text; distinct by text",
